@@ -9,7 +9,9 @@
 EXTENDS SborSchema, Json
 CONSTANTS Depth,          \* 1: single edits, 2: also edits of edits
           Sample,         \* keep 1 out of Sample double edits (rotating), 1 = all
-          BaseMod, BaseRem \* only bases b with b % BaseMod = BaseRem (BaseMod = 1: all)
+          BaseMod, BaseRem, \* only bases b with b % BaseMod = BaseRem (BaseMod = 1: all)
+          EditSet          \* "all", or "val": only the validation-bound edits (the boundary product
+                           \*  bound in {none, 0, 1, 2, 3} x {lower, upper} x validated kind)
 B(n) == IF n < 0 THEN NoBound ELSE Bound(n)
 U8r(lo, hi) == Def("U8", <<>>, <<>>, B(lo), B(hi), "", "", "", <<>>)
 Str(lo, hi) == Def("String", <<>>, <<>>, B(lo), B(hi), "", "", "", <<>>)
@@ -85,7 +87,7 @@ Edits(S) == {T \in ValEdits(S) \cup VariantEdits(S) \cup TupleEdits(S) \cup RefE
 
 VARIABLES base, cur, depth
 GInit == \E b \in {x \in 1..Len(Bases) : x % BaseMod = BaseRem} : base = b /\ cur = Bases[b] /\ depth = 0
-GNext == depth < Depth /\ \E T \in Edits(cur) : cur' = T /\ depth' = depth + 1 /\ UNCHANGED base
+GNext == depth < Depth /\ \E T \in (IF EditSet = "val" THEN {X \in ValEdits(cur) : WellFormed(X)} ELSE Edits(cur)) : cur' = T /\ depth' = depth + 1 /\ UNCHANGED base
 GSpec == GInit /\ [][GNext]_<<base, cur, depth>>
 Pair == [base |-> [s |-> Bases[base], root |-> 1], new |-> [s |-> cur, root |-> 1], b |-> base, depth |-> depth]
 KN(k) == CASE k = "Any" -> 1 [] k = "Bool" -> 2 [] k = "U8" -> 3 [] k = "String" -> 4 [] k = "Tuple" -> 5 [] k = "Enum" -> 6
